@@ -39,10 +39,10 @@ Proof. exact broadcastable_iff_zero_refuted. Qed.
 Print Assumptions C07_broadcastable_iff_zero_refuted.
 
 (* incompatible shapes raise (prepare returns the error, the operator is not applied) *)
-Theorem C07_incompatible_raises (S : ScalOps) (q : bool) (ns : nat) (o : vop S) (s : vsm S) :
+Theorem C07_incompatible_raises (S : ScalOps) (ns : nat) (o : vop S) (s : vsm S) :
   broadcastable true [bshape s; vshape o] = false ->
-  prepare (vshape o) (bshape s) = None /\ vapply q ns o s = None.
-Proof. exact (incompatible_raises S q ns o s). Qed.
+  prepare (vshape o) (bshape s) = None /\ vapply ns o s = None.
+Proof. exact (incompatible_raises S ns o s). Qed.
 Print Assumptions C07_incompatible_raises.
 
 (* "incompatible" is: some axis, counted from the first, carries two different sizes other than 1 *)
@@ -72,72 +72,52 @@ Theorem C07_prod_low_rank_refuted :
 Proof. exact prod_low_rank_refuted. Qed.
 Print Assumptions C07_prod_low_rank_refuted.
 
-(* matrix_prod, in-place matmul(mat[..., NAX, :, :], states, axes=[(-2,-1),(-1,-2),(-1,-2)], out=states):
-   numpy accepts it (no ValueError, no fall-back) exactly when the first operator axis is a
-   singleton and operator axis j+1 fits state axis j *)
-Theorem C07_matrix_prod_inplace_accepts (a : nat) (A B : shape) :
-  length (a :: A) <= length B ->
-  (mp_inplace_ok (a :: A) B = true <-> a = 1 /\ dom A B).
-Proof. exact (mp_inplace_spec a A B). Qed.
+(* matrix_prod, in-place branch matmul(mat[..., 0, :, :], states, axes=[(-2,-1),(-1,-2),(-1,-2)],
+   out=states), EVERY |A| <= |B|: numpy accepts it in place (no ValueError, no fall-back) exactly
+   when every operator axis is a singleton or has the size of the same state axis ... *)
+Theorem C07_matrix_prod_inplace_accepts (A B : shape) :
+  length A <= length B -> (mp_inplace_ok A B = true <-> dom A B).
+Proof. exact (mp_inplace_fixed_spec A B). Qed.
 Print Assumptions C07_matrix_prod_inplace_accepts.
 
-(* ... it then reads the operator element of the index shifted by one axis ... *)
-Theorem C07_matrix_prod_inplace_reads (A B : shape) (bidx : list nat) :
+(* ... and then reads the append-aligned operator element at every batch index *)
+Theorem C07_matrix_prod_inplace_pointwise (A B : shape) (bidx : list nat) :
   length A <= length B -> length bidx = length B ->
-  mp_inplace_op A B bidx = aproj A (0 :: bidx).
-Proof. exact (mp_inplace_op_spec A B bidx). Qed.
-Print Assumptions C07_matrix_prod_inplace_reads.
+  mp_inplace_op A B bidx = aproj A bidx.
+Proof. exact (mp_inplace_fixed_reads A B bidx). Qed.
+Print Assumptions C07_matrix_prod_inplace_pointwise.
 
-(* ... which is the append-aligned element at every index iff the operator is unbatched *)
-Theorem C07_matrix_prod_inplace_correct_iff (a : nat) (A B : shape) :
-  length (a :: A) <= length B -> pos B -> mp_inplace_ok (a :: A) B = true ->
-  ((forall bidx, valid B bidx -> mp_inplace_op (a :: A) B bidx = aproj (a :: A) bidx)
-   <-> all_ones (a :: A) = true).
-Proof. exact (mp_inplace_correct_iff a A B). Qed.
-Print Assumptions C07_matrix_prod_inplace_correct_iff.
+(* the two former counterexamples (DESIGN 9.14 and the doubly inserted axes), now regression cases *)
+Theorem C07_matrix_prod_inplace_witnesses :
+  mp_inplace_ok [1; 2] [2; 2] = true /\ mp_inplace_op [1; 2] [2; 2] [1; 0] = [0; 0] /\
+  mp_inplace_ok [1; 1; 2] [2; 1; 2; 1] = true /\
+  mp_inplace_op [1; 1; 2] [2; 1; 2; 1] [1; 0; 1; 0] = [0; 0; 1].
+Proof. exact matrix_prod_inplace_witnesses. Qed.
+Print Assumptions C07_matrix_prod_inplace_witnesses.
 
-(* matrix_prod_pointwise is REFUTED on the pinned tree: a (1,2) operator on a (2,2) state *)
-Theorem C07_matrix_prod_pointwise_refuted :
-  exists A B bidx, broadcastable true [B; A] = true /\ length A <= length B /\
-    mp_inplace_ok A B = true /\ mp_inplace_op A B bidx <> aproj A bidx.
-Proof. exact matrix_prod_inplace_refuted. Qed.
-Print Assumptions C07_matrix_prod_pointwise_refuted.
-
-(* the property, states: without the in-place branch, for every program and every shapes *)
+(* the property, states: every program, all ranks and shapes, ScalarOp and MatrixOp through
+   either branch: entry idx of the vectorised run is the scalar run with that index's coefficients *)
 Theorem C07_vectorised_is_stack (S : ScalOps) (ns : nat) (ops : list (vop S)) (s r : vsm S) :
-  vrun false ns ops s = Some r ->
-  forall idx, valid (bshape r) idx ->
-    sget r idx = run (scalar_ops ops idx) (sget s (aproj (bshape s) idx)).
-Proof. exact (vectorised_is_stack_noinplace S ns ops s r). Qed.
-Print Assumptions C07_vectorised_is_stack.
-
-(* on the pinned tree (q = true): only for programs whose batched MatrixOps have a first axis
-   other than 1 (the in-place branch then raises and falls back) or are unbatched *)
-Theorem C07_vectorised_is_stack_partial (S : ScalOps) (q : bool) (ns : nat) (ops : list (vop S)) (s r : vsm S) :
-  List.Forall (op_safe q) ops -> vrun q ns ops s = Some r ->
+  vrun ns ops s = Some r ->
   length (bshape s) <= length (bshape r) /\
   forall idx, valid (bshape r) idx ->
     sget r idx = run (scalar_ops ops idx) (sget s (aproj (bshape s) idx)).
-Proof. exact (vectorised_is_stack S q ns ops s r). Qed.
-Print Assumptions C07_vectorised_is_stack_partial.
+Proof. exact (vectorised_is_stack S ns ops s r). Qed.
+Print Assumptions C07_vectorised_is_stack.
 
-(* and refuted otherwise: one (1,2) MatrixOp on a (2,2) state, entry (1,0) *)
-Theorem C07_vectorised_refuted :
-  exists (ops : list (vop QIops)) s r idx,
-    vrun true 1 ops s = Some r /\ valid (bshape r) idx /\
-    sm_eqb (sget r idx) (run (scalar_ops ops idx) (sget s (aproj (bshape s) idx))) = false /\
-    (exists r', vrun false 1 ops s = Some r' /\
-       sm_eqb (sget r' idx) (run (scalar_ops ops idx) (sget s (aproj (bshape s) idx))) = true).
-Proof. exact vectorised_refuted. Qed.
-Print Assumptions C07_vectorised_refuted.
+(* executed on the two former counterexamples (QI instance, every grid index) *)
+Theorem C07_vectorised_witnesses :
+  wit_ok [1; 2] 1 [2; 2] = true /\ wit_ok [1; 1; 2] 2 [2; 1; 2; 1] = true.
+Proof. exact vectorised_witnesses. Qed.
+Print Assumptions C07_vectorised_witnesses.
 
 (* output shape: the run from a state whose shape dominates every operator shape succeeds and
    keeps that shape; simulate's array is (n_acquisitions,) + that shape *)
-Theorem C07_output_shape (S : ScalOps) (q : bool) (ns : nat) (ops : list (vop S)) (s : vsm S) (nacq : nat) :
+Theorem C07_output_shape (S : ScalOps) (ns : nat) (ops : list (vop S)) (s : vsm S) (nacq : nat) :
   List.Forall (fun o => dom (vshape o) (bshape s)) ops ->
-  exists r, vrun q ns ops s = Some r /\ bshape r = bshape s /\
+  exists r, vrun ns ops s = Some r /\ bshape r = bshape s /\
             simulate_shape nacq (bshape r) = nacq :: bshape s.
-Proof. exact (output_shape S q ns ops s nacq). Qed.
+Proof. exact (output_shape S ns ops s nacq). Qed.
 Print Assumptions C07_output_shape.
 
 (* getshape(seq) (++ extra axes of a given initial state) is such a shape *)
@@ -147,17 +127,12 @@ Theorem C07_getshape_dominates (shapes : list shape) (G extra : shape) :
 Proof. exact (getshape_dom shapes G extra). Qed.
 Print Assumptions C07_getshape_dominates.
 
-(* non-vacuity: a program of a (2,) ScalarOp and a (2,3) MatrixOp meets the hypotheses of the
-   partial theorem on the pinned tree and runs in the model from the (2,3) state *)
+(* non-vacuity: a program of a (2,) ScalarOp and a (1,3) MatrixOp runs in the model from the
+   (2,3) state (the MatrixOp through the in-place branch) and keeps the shape getshape gives *)
 Example C07_nonvacuous :
-  let o1 : vop QIops := @mkVop QIops [2] (fun idx => @OScalar QIops (@mk3 QIops (wit_c (0 :: idx)) (wit_c (0 :: idx)) (qr 1 2)) None) false in
-  let o2 : vop QIops := @mkVop QIops [2; 3] (fun idx => @OMatrix QIops (@mdiag QIops (@mk3 QIops (wit_c idx) (wit_c idx) (wit_c idx))) None) true in
-  let s : vsm QIops := @mkVsm QIops [2; 3] (fun _ => @init QIops (qr 1 1)) in
-  getshape [[2]; [2; 3]] = Some [2; 3] /\ List.Forall (op_safe true) [o1; o2] /\
-  exists r, vrun true 1 [o1; o2] s = Some r /\ bshape r = [2; 3].
-Proof.
-  split; [reflexivity|]. split.
-  - constructor; [right; left; reflexivity|]. constructor; [|constructor].
-    right; right; right. simpl. discriminate.
-  - eexists. split; reflexivity.
-Qed.
+  let o1 : vop QIops := @mkVop QIops [2] (fun idx => @OScalar QIops (@mk3 QIops (wit_c 0 idx) (wit_c 0 idx) (qr 1 2)) None) false in
+  let o2 : vop QIops := wit_op [1; 3] 1 in
+  let s : vsm QIops := wit_s [2; 3] in
+  getshape [[2]; [1; 3]] = Some [2; 3] /\ mp_inplace_ok [1; 3] [2; 3] = true /\
+  exists r, vrun 1 [o1; o2] s = Some r /\ bshape r = [2; 3].
+Proof. split; [reflexivity|]. split; [reflexivity|]. eexists. split; reflexivity. Qed.
